@@ -524,6 +524,7 @@ async fn run_burst(d: &D, n: usize, bi: bool, raise: usize, o: Side) -> Result<(
     d.note(format!("{} raises the {dir} stream limit by {raise}", p.name()));
     await_credits(d, w1.clone(), raise, bi, "credit-by-set-max", &format!("{} raised the limit from {BURST_LIMIT} to {} in one call", p.name(), BURST_LIMIT as usize + raise)).await?;
     d.count("burst_credit_by_set_max_resolved");
+    d.note(format!("{raise} of the {n} parked open_{dir}_wait futures resolved"));
     // nobody gets a stream without a credit
     d.quiet().await;
     let got = d.resolved(w1.clone());
@@ -539,6 +540,7 @@ async fn run_burst(d: &D, n: usize, bi: bool, raise: usize, o: Side) -> Result<(
         d.note(format!("{} raises the {dir} stream limit by the remaining {}", p.name(), n - raise));
         await_credits(d, w1.clone(), n, bi, "credit-by-set-max", &format!("{} raised the limit by {raise} and then by {} more", p.name(), n - raise)).await?;
         d.count("burst_second_raise_resolved_rest");
+        d.note(format!("the remaining {} resolved", n - raise));
     }
     for i in w1.clone() {
         let r = d.result(i).unwrap_or_default();
@@ -619,6 +621,7 @@ async fn run_burst(d: &D, n: usize, bi: bool, raise: usize, o: Side) -> Result<(
         }
         await_credits(d, w2.clone(), n, bi, "credit-by-closes", &format!("{} read {n} finished streams to the end{} in one turn ({n} credits come back)", p.name(), if bi { " and finished its own halves" } else { "" })).await?;
         d.count("burst_credit_by_closes_resolved");
+        d.note(format!("all {n} open_{dir}_wait futures of the second wave resolved"));
         for i in w2 {
             let r = d.result(i).unwrap_or_default();
             if r != "Ok" {
@@ -895,6 +898,7 @@ async fn run_idle(d: &D, action: Action, kind: Kind, payload: usize, s_side: Sid
         }
         seen.push(got);
     }
+    d.note(format!("observed: {}", seen.join(" / ")));
     d.outcomes.borrow_mut().insert(format!("idle:{an}:{kn}:{}", seen.join(" / ")));
     Ok(())
 }
